@@ -498,6 +498,11 @@ def pack2d(RVARA, verbose=False):
     # positive or whole number scaling round up for lower precision
     if SEXP >= 0.0 or (SEXP % 1.0) == 0.0:
         NEXP = NEXP + 1
+    # the byte codes cover differences of -127..+128 quanta (2**(NEXP-7)) and
+    # the running reconstruction may be half a quantum off: keep the largest
+    # difference within 127 quanta so that no code leaves 0..255
+    if RMAX * 2.0**(7 - NEXP) > 127:
+        NEXP = NEXP + 1
     # precision range is -127 to 127 or 254
     PREC = np.float32((2.0**NEXP) / 254.0)
     SCEXP = np.float32(2.0**(7 - NEXP))
